@@ -42,6 +42,27 @@ fn main() -> ExitCode {
         emit(Path::new(&args[3]), &[(0, h)], &[]);
         return ExitCode::SUCCESS;
     }
+    if args.len() == 5 && args[1] == "cases" {
+        // pre-generated operation sequences (definition independent) for the Miri tier
+        let prop: &'static str = match args[2].as_str() {
+            "C04" => "C04",
+            "C05" => "C05",
+            "C06" => "C06",
+            "C15" => "C15",
+            "C16" => "C16",
+            _ => "C07",
+        };
+        let n: usize = args[3].parse().expect("n");
+        let mut runner = TestRunner::new(Config {
+            rng_seed: RngSeed::Fixed(mix_seed(env_seed(), 0x3141)),
+            failure_persistence: None,
+            ..Config::default()
+        });
+        let strategy = vdrive::case_strategy(prop);
+        let cases: Vec<vdrive::Case> = (0..n).map(|_| strategy.new_tree(&mut runner).expect("tree").current()).collect();
+        fs::write(&args[4], serde_json::to_string(&cases).unwrap()).expect("write cases");
+        return ExitCode::SUCCESS;
+    }
     eprintln!("usage: e2_genstage gen <count> <out dir> [exclude] | single <case.json> <out dir>");
     ExitCode::from(2)
 }
